@@ -72,6 +72,8 @@ package didstore
 //@   nullable currentMeta
 //@   loop 3 invariant !did(call mergeDocuments #1) || same(newDoc, ret(call mergeDocuments #1))
 //@   call mergeDocuments #1 requires same(arg(1), newDoc)
+// the branches are merged in the order of a sorted list of their references, not in map order
+//@   call hash.ParseHex #1 requires [branches-merged-in-a-fixed-order] didCallWith("sort.Strings", 0, unconsumedRefs) && arg(0) == unconsumedRefs[$i-1]
 //@   ensures [first-version-as-is] currentMeta == nil ==> same(result.0, newDoc) && same(result.1, newMeta) && isNilIface(result.2)
 //@   ensures [version-increments] currentMeta != nil && isNilIface(result.2) ==> result.1.Version == old(currentMeta.Version) + 1 && same(result.1.Created, old(currentMeta.Created))
 //@   ensures [deactivation-is-permanent] currentMeta != nil && isNilIface(result.2) && old(currentMeta.Deactivated) ==> result.1.Deactivated
@@ -89,6 +91,12 @@ package didstore
 //@ func readDocumentFromEvent
 //@   trusted
 //@   benign
+//@ func hash.ParseHex
+//@   trusted
+//@   benign
+//@ func sort.Strings
+//@   trusted
+//@   modifies args
 //@ func (go-stoabs.WriteTx).GetShelfWriter
 //@   trusted
 //@   benign
